@@ -30,7 +30,7 @@ class C11(Prop):
             ops = []
             for _ in range(r.range(1, 4)):
                 o = {"op": "snappath", "api": r.choice(["snap", "snap", "stand", "standjson"]), "test": hx(r.choice(G.TEST_NAMES)),
-                     "form": r.choice(["test", "test", "nontest", "nontest", "utiltest", "nontestdeep"]),
+                     "form": r.choice(["test", "test", "nontest", "nontest", "utiltest", "nontestdeep", "nontest_via_util"]),
                      "count": r.choice([1, 5, 23, 24, 25, 40, 120]),      # recursion depth of the non-test helper (form nontestdeep)
                      "values": r.choice([[], ["nontest"], ["nontest2"], ["closure"], ["othertest"], ["othertest", "nontest"],
                                          ["nontest", "closure", "nontest2"], ["utiltest"], ["utiltest", "nontest", "othertest"], ["goroutine"]]),
@@ -67,7 +67,7 @@ class C11(Prop):
             UTIL = REPO + "/snaps/zz_verif_util_test.go"
             # (the closure that makes a non-test leaf call is itself written in the c11 test file, whatever
             # wrappers surround it)
-            caller = UTIL if leaf == "utiltest" else THIS
+            caller = UTIL if leaf in ("utiltest", "nontest_via_util") else THIS
             d = unhx(raw["dir"]).decode() if "dir" in raw else "__snapshots__"
             base = posixpath.dirname(caller)
             full = d if d.startswith("/") else posixpath.join(base, d)
